@@ -116,6 +116,28 @@ def miri_summary(err):
     return "report"
 
 
+def text_depth(text):
+    """Maximal bracket nesting of JSON text(s) (string contents skipped)."""
+    d = mx = 0
+    instr = esc = False
+    for ch in text:
+        if instr:
+            if esc:
+                esc = False
+            elif ch == "\\":
+                esc = True
+            elif ch == '"':
+                instr = False
+        elif ch == '"':
+            instr = True
+        elif ch in "[{":
+            d += 1
+            mx = max(mx, d)
+        elif ch in "]}":
+            d -= 1
+    return mx
+
+
 def handle_failures(pid, lane, failures, agg, env=None):
     """Abnormal shard termination. A harness bug or a watchdog is inconclusive; a crash of the
     code under test is pinned to its in-flight call by a trace re-run."""
@@ -159,7 +181,11 @@ def handle_failures(pid, lane, failures, agg, env=None):
             raise O.Inconclusive("lane %s shard %d: the harness itself failed: %s" % (lane, f["shard"], err[-600:]))
         last, rc2 = O.trace_last_call(f, env)
         detail = {"lane": lane, "shard": f["shard"], "exit": f["rc"], "in_flight_call": last, "stderr_tail": err[-800:]}
-        if pid == "C01" and last:
+        if last and (pid == "C01" or text_depth(last) <= 127):
+            # every property promises a value or an error for the calls it quantifies over: a process
+            # that dies in such a call violates it (for C02..C16 only when the in-flight document is
+            # one the text interfaces can deliver; deeper ones - Rust API only - stay C01's business,
+            # whose domain excludes them)
             parts = last.split(" ", 3)
             try:
                 rule_data = parts[3]
@@ -168,7 +194,12 @@ def handle_failures(pid, lane, failures, agg, env=None):
                 data, _ = dec.raw_decode(rule_data[k:].lstrip())
             except Exception:
                 rule, data = last, None
-            agg["violations"].append({"monitor": "c01.process", "sig": "abnormal-termination:%s:%s" % (lane, json.dumps(f["rc"])),
+            pmon = "c01.process" if pid == "C01" else pid.lower() + ".process"
+            m = agg["monitors"].setdefault(pmon, {"observed": 0, "judged": 0, "unjudged": 0, "violations": 0})
+            m["observed"] += 1
+            m["judged"] += 1
+            m["violations"] += 1
+            agg["violations"].append({"monitor": pmon, "sig": "abnormal-termination:%s:%s" % (lane, json.dumps(f["rc"])),
                                       "rule": rule, "data": data, "expected": "a value or an error",
                                       "got": detail, "note": "the shard process died while this call was in flight", "lane": lane,
                                       "shard": f["shard"], "count": 1, "direct": True})
